@@ -80,12 +80,13 @@ def run(repo, tier) -> Result:
     from .c20 import truthiness_sites
 
     _cm = repo.module("hexital.utils.candles")
+    homes = {_cm.name: _cm}
     for fn in ("reading_by_index", "reading_by_candle", "reading_period", "candles_sum"):
-        repo.func("hexital.utils.candles", fn)  # public anchors must exist
-    for fn in sorted(_cm.functions):
-        if fn in ("reading_count",):
+        _h = repo.func("hexital.utils.candles", fn).module  # public anchors must exist (possibly moved and re-exported)
+        homes[_h.name] = _h
+    for f in sorted((f for m in homes.values() for f in m.functions.values()), key=lambda f: f.name):
+        if f.name in ("reading_count",):
             continue
-        f = _cm.functions[fn]
         sites = truthiness_sites(f.node)
         if not sites:
             res.ok("R-TRUTH", {"function": f.qualname, "why": "no looked-up value in boolean context"})
